@@ -258,6 +258,13 @@ def main(argv):
         ctx.error("mode B: the bounds-check canary kernel did not raise IndexError")
     if hasattr(mod, "setup"):
         mod.setup(ctx)
+    cover_files = sorted({a[0] for a in getattr(mod, "ANCHORS", [])})
+    if os.environ.get("VERIF_COVER_ALL") == "1":
+        from vf import cover
+        cover_files = cover.all_repo_files(spec["repo"])
+    if cover_files:
+        from vf import cover
+        cover.start(spec["repo"], cover_files)
     if spec.get("kind") == "repotests":
         run_repo_tests(spec, ctx)
     elif hasattr(mod, "run_shard"):
@@ -267,6 +274,9 @@ def main(argv):
         default_run_shard(mod, spec, ctx)
     if hasattr(mod, "finish"):
         mod.finish(ctx)
+    if cover_files:
+        from vf import cover
+        cover.flush(ctx)
     with open(outfile, "w") as f:
         json.dump(ctx.result(), f, default=str)
     return 0
